@@ -18,7 +18,16 @@ pub const ORACLES: &[(&str, Oracle)] = &[("trunc_slp", o_trunc_slp), ("trunc_slp
 pub fn o_trunc_slp(input: &[u8], p: &P) -> Out {
 	let cut = p.n[0] as usize;
 	let mut out = Out { transitions: 1, nontrivial: true, ..Default::default() };
-	match read_slp(&input[..cut], p.skip, p.hash) {
+	// through the environment-owned reader: a loop that keeps reading at EOF trips its progress bound
+	let mut rd = crate::env::EnvReader::new(&input[..cut], crate::env::Sched::Full);
+	let res = read_slp_from(&mut rd, p.skip, p.hash);
+	if rd.overrun {
+		out.obs = 4;
+		out.viol = viol("trunc_slp", p, "no-progress", format!("reading the first {} of {} bytes: the reader kept calling read() at end of input without making progress", cut, input.len()));
+		out.states.push(out.obs);
+		return out;
+	}
+	match res {
 		Err(Fail::Err(e)) => out.obs = fnv_mix(2, xx(sanitize(&e).as_bytes())),
 		Err(Fail::Panic(pn)) => {
 			out.obs = 3;
